@@ -30,6 +30,41 @@ def sumAndN (c : List Int) : Int × Nat := (c.sum, c.length)
 def pairAdd (a b : Int × Nat) : Int × Nat := (a.1 + b.1, a.2 + b.2)
 def meanStream (cs : List (List Int)) : Int × Nat := (cs.map sumAndN).foldl pairAdd (0, 0)
 
+/-! #### mean over axis 0 of 2-d chunks (`sum_and_n(chunk, axis=0)` = column sums and the number of rows), row-wise
+functions without reduction (`streamable()`: `_rowmean`, one result per chunk), quantiles from the bincount -/
+
+/-- NumPy's `np.sum(rows, axis=0)` for rows of width `w` (specified external): the sum of every column -/
+def colSums (w : Nat) (rows : List (List Int)) : List Int :=
+  (List.range w).map (fun j => (rows.map (fun r => r.getD j 0)).sum)
+
+/-- `np.append(np.sum(chunk, axis=0), len(chunk))` -/
+def sumAndNCols (w : Nat) (c : List (List Int)) : List Int := colSums w c ++ [(c.length : Int)]
+
+/-- accumulator of Python's `sum(...)` over integer arrays -/
+inductive PySumI where
+  | zero
+  | arr (v : List Int)
+
+def pyAddI : PySumI → List Int → PySumI
+  | .zero, v => .arr v
+  | .arr a, v => .arr (List.zipWith (· + ·) a v)
+
+def meanColsStream (w : Nat) (cs : List (List (List Int))) : PySumI :=
+  (cs.map (sumAndNCols w)).foldl pyAddI PySumI.zero
+
+/-- `streamable()(f)` without reduction: the stream of per-chunk results -/
+def mapStream {α β} (f : List α → List β) (cs : List (List α)) : List (List β) := cs.map f
+
+/-- `np.cumsum` -/
+def cumsumFrom (acc : Nat) : List Nat → List Nat
+  | [] => []
+  | x :: xs => (acc + x) :: cumsumFrom (acc + x) xs
+
+/-- `quantile`: `np.searchsorted(np.cumsum(hist), q * total)` for `q = p / d`, in exact arithmetic:
+the number of cumulative counts below `q * total` -/
+def quantileOf (hist : List Nat) (p d : Nat) : Nat :=
+  ((cumsumFrom 0 hist).filter (fun c => decide (c * d < p * hist.sum))).length
+
 /-! #### bincount: `np.bincount(chunk, minlength=ml)` per chunk, `reduce(bincount_reduce, …)` -/
 
 /-- one more than the largest value (0 for the empty array) -/
@@ -49,6 +84,10 @@ def bincountReduce (a b : List Nat) : List Nat :=
 
 def bincountStream (ml : Nat) (cs : List (List Nat)) : Option (List Nat) :=
   reduce1 bincountReduce (cs.map (bincount ml))
+
+/-- `quantile(stream, q)`: `hist = bincount(stream)` (the streamed reduction), then the index -/
+def quantileStream (cs : List (List Nat)) (p d : Nat) : Option Nat :=
+  (bincountStream 0 cs).map (fun h => quantileOf h p d)
 
 /-! #### histogram with explicitly given bin edges -/
 
@@ -85,7 +124,7 @@ def histogramStream (edges : List Int) (cs : List (List Int)) : Option (List Nat
 def uniformEdges (bins : Nat) (lo : Int) (width : Nat) : List Int :=
   (List.range (bins + 1)).map (fun i => lo + (i * width : Nat))
 
-/-! #### k-mer counts over an alphabet of size 4: `count_kmers = streamable(sum)(count_encoded ∘ get_kmers)` -/
+/-! #### k-mer counts over an alphabet of size `A` (4: packed 2-bit fast path; otherwise `KmerEncoder`): `count_kmers = streamable(sum)(count_encoded ∘ get_kmers)` -/
 
 /-- all length-`k` windows of a row, left to right (row-local: this is C13's subject) -/
 def windows (k : Nat) : List Nat → List (List Nat)
@@ -93,20 +132,20 @@ def windows (k : Nat) : List Nat → List (List Nat)
   | x :: xs => if k ≤ (x :: xs).length then (x :: xs).take k :: windows k xs else []
 
 /-- 2-bit packing, first character in the lowest bits -/
-def hashLE (w : List Nat) : Nat := w.foldr (fun c acc => c + 4 * acc) 0
+def hashLE (A : Nat) (w : List Nat) : Nat := w.foldr (fun c acc => c + A * acc) 0
 
-def kmerHashes (k : Nat) (rows : List (List Nat)) : List Nat :=
-  (rows.map (fun r => (windows k r).map hashLE)).flatten
+def kmerHashes (A k : Nat) (rows : List (List Nat)) : List Nat :=
+  (rows.map (fun r => (windows k r).map (hashLE A))).flatten
 
-def kmerCounts (k : Nat) (rows : List (List Nat)) : List Nat :=
-  (List.range (4 ^ k)).map (fun h => (kmerHashes k rows).count h)
+def kmerCounts (A k : Nat) (rows : List (List Nat)) : List Nat :=
+  (List.range (A ^ k)).map (fun h => (kmerHashes A k rows).count h)
 
 /-- Python `sum` of `EncodedCounts`: `0 + c₁ + c₂ + …` (`__radd__` with a number, then `__add__`) -/
-def countKmersStream (k : Nat) (cs : List (List (List Nat))) : PySum :=
-  (cs.map (kmerCounts k)).foldl pyAdd PySum.zero
+def countKmersStream (A k : Nat) (cs : List (List (List Nat))) : PySum :=
+  (cs.map (kmerCounts A k)).foldl pyAdd PySum.zero
 
 /-- label of hash `h`: characters `c_j = (h / 4^j) % 4` -/
-def kmerLabel (k h : Nat) : List Nat := (List.range k).map (fun j => (h / 4 ^ j) % 4)
+def kmerLabel (A k h : Nat) : List Nat := (List.range k).map (fun j => (h / A ^ j) % A)
 
 /-! ### group-by on change points, joined across chunks -/
 
